@@ -24,7 +24,7 @@ func partLockOrder(c *check.Ctx, a *acc, victims []string) {
 		return
 	}
 	b := e1Batch{Profiles: []string{"mixed", "component", "subscribe", "module", "departure", "registry", "view", "relay", "owner"}, Histories: c.Pick(72, 360), Steps: c.Pick(80, 140), MaxConns: 5, MaxSess: 3}
-	res := e1.RunPool(c.WS, bin, sut.LabOpts{Frame: 2_000_000, Locks: true, Name: "locks"}, b.configs(c.Seed+77), 12, false)
+	res := e1.RunPool(c.WS, bin, sut.LabOpts{Frame: 2_000_000, Locks: true, Name: "locks"}, b.configs(c.Seed+77), 12, true)
 	if res.StartErr != nil {
 		c.Inconc("SUT start failed: " + res.StartErr.Error())
 	}
